@@ -25,7 +25,7 @@ cp $src/patch.diff $out/patch.diff; cp $src/demo.py $out/demo.py; [ -f $src/note
 python3 - "$prop" "$k" "$clean_rc" "$mut_rc" "$tail_line" "$same" "$out" <<'PY'
 import json,sys,subprocess
 prop,k,clean_rc,mut_rc,tail,same,out=sys.argv[1:8]
-meta={"property":prop,"seed":int(k),"round":2 if "r2" in out else 1,
+meta={"property":prop,"seed":int(k),"round":(int(__import__("re").search(r"-r(\d)-",out).group(1)) if __import__("re").search(r"-r(\d)-",out) else 1),
  "repo_commit":subprocess.run(["git","-C","/repo","log","-1","--format=%h"],capture_output=True,text=True).stdout.strip(),
  "demo_exit_clean_tree":int(clean_rc),"demo_exit_with_patch":int(mut_rc),
  "suite_with_patch":tail,"suite_failing_set_equals_baseline":same=="yes",
